@@ -812,7 +812,10 @@ func (e *Env) conversion(ty *SType, arg Expr) (*SVal, error) {
 		if v.Ty != nil && v.Ty.Go != nil && ty.Go != nil {
 			flo, fhi, fok := intRange(v.Ty.Go)
 			tlo, thi, tok := intRange(ty.Go)
-			if fok && tok && flo.Cmp(tlo) >= 0 && fhi.Cmp(thi) <= 0 {
+			_, isBin := arg.(*EBinary)
+			_, isUn := arg.(*EUnary)
+			// (specification arithmetic is mathematical: the result of + - * may leave the operand type's range)
+			if fok && tok && flo.Cmp(tlo) >= 0 && fhi.Cmp(thi) <= 0 && !isBin && !isUn {
 				return &SVal{v.T, ty}, nil
 			}
 			if tok {
